@@ -167,7 +167,7 @@ func (g *PG) Expr(t Ty, d int) *canon.Node {
 	}
 	switch t {
 	case TInt:
-		switch r.Intn(10) {
+		switch r.Intn(12) {
 		case 0, 1:
 			op := Pick(r, []string{"+", "-", "*"})
 			return call(op, g.Expr(TInt, d+1), g.Expr(TInt, d+1))
@@ -204,6 +204,18 @@ func (g *PG) Expr(t Ty, d int) *canon.Node {
 		case 7:
 			// nth on a literal list with an index in range
 			return call("nth", li(sy("list"), g.Expr(TInt, d+1), g.Expr(TInt, d+1)), canon.In(r.Intn(2)))
+		case 8:
+			// an atom local to the expression: swap!/reset!/deref are ordered effects on a reference object
+			g.stat("atom")
+			at := g.fresh("at")
+			return li(sy("let"), li(sy(at), call("atom", g.Expr(TInt, d+1))),
+				call("swap!", sy(at), sy("+"), g.Expr(TInt, d+1)),
+				call("swap!", sy(at), li(sy("fn"), li(sy("v")), g.mark(), call("*", sy("v"), canon.In(2)))),
+				call("reset!", sy(at), call("+", call("deref", sy(at)), canon.In(1))),
+				call("deref", sy(at)))
+		case 9:
+			g.stat("reduce")
+			return call("reduce", g.Expr(TFn2, d+1), g.Expr(TInt, d+1), g.Expr(TList, d+1))
 		}
 		return g.leaf(t)
 	case TBool:
@@ -221,11 +233,14 @@ func (g *PG) Expr(t Ty, d int) *canon.Node {
 		case 6:
 			// truthiness of non-boolean values: only nil and false are falsy
 			g.stat("truthy-nonbool")
-			return li(sy("if"), Pick(r, []*canon.Node{canon.In(0), canon.St(""), canon.Li(), canon.N(), canon.Bo(false), canon.Ve(), canon.Ke("k")}), canon.Bo(true), canon.Bo(false))
+			cond := Pick(r, []*canon.Node{canon.In(0), canon.St(""), canon.Li(), canon.N(), canon.Bo(false), canon.Ve(), canon.Ke("k"),
+				// collection literals in condition position are evaluated like any other form (their elements' effects happen)
+				canon.Ve(g.tr(canon.In(r.Intn(5)))), canon.Ma(map[string]*canon.Node{canon.Marker + "k": g.tr(canon.In(r.Intn(5)))}), canon.Ve(g.mark(), canon.N()), canon.Se("m")})
+			return li(sy("if"), cond, canon.Bo(true), canon.Bo(false))
 		}
 		return g.leaf(t)
 	case TList:
-		switch r.Intn(9) {
+		switch r.Intn(10) {
 		case 0, 1:
 			n := r.Intn(4)
 			l := []*canon.Node{sy(Pick(r, []string{"list", "vector"}))}
@@ -254,6 +269,10 @@ func (g *PG) Expr(t Ty, d int) *canon.Node {
 			if g.o.Macros {
 				return g.genQQList(d)
 			}
+		case 8:
+			// a closure with only a rest parameter mapped over a list: every call gets its own argument list
+			g.stat("map-rest-closure")
+			return call("apply", sy("concat"), call("map", li(sy("fn"), li(sy("&"), sy("xs")), sy("xs")), g.Expr(TList, d+1)))
 		}
 		return g.leaf(t)
 	case TFn1:
@@ -446,6 +465,19 @@ func (g *PG) thrower(d int) *canon.Node {
 		g.stat("throw-in-apply")
 		return call("apply", li(sy("fn"), li(sy("&"), sy("xs")), call("throw", g.thrownObject())), call("list", canon.In(1)))
 	case 6:
+		if r.Intn(2) == 0 {
+			// the throw originates in a function called by a collection builtin / swap! / reduce: the thrown object
+			// must come out of the builtin unchanged
+			g.stat("throw-in-higher-order-builtin")
+			thr := li(sy("fn"), li(sy("x")), call("throw", g.thrownObject()))
+			return Pick(r, []*canon.Node{
+				call("update-in", canon.Ma(map[string]*canon.Node{canon.Marker + "a": canon.Ma(map[string]*canon.Node{canon.Marker + "b": canon.In(1)})}), canon.Ve(canon.Ke("a"), canon.Ke("b")), thr),
+				call("update-in", canon.Ve(canon.Ve(canon.In(1), canon.In(2))), canon.Ve(canon.In(0), canon.In(1)), thr),
+				call("update", canon.Ma(map[string]*canon.Node{canon.Marker + "a": canon.In(1)}), canon.Ke("a"), thr),
+				call("swap!", call("atom", canon.In(1)), thr),
+				call("reduce", li(sy("fn"), li(sy("acc"), sy("x")), call("throw", g.thrownObject())), canon.In(0), canon.Ve(canon.In(1), canon.In(2))),
+			})
+		}
 		g.stat("error-unbound")
 		return sy("unbound-symbol-zz")
 	case 7:
@@ -733,7 +765,7 @@ func (g *PG) genMacroDef() []*canon.Node {
 	var def *canon.Node
 	uq := func(s string) *canon.Node { return li(sy("unquote"), sy(s)) }
 	arity := 2
-	switch r.Intn(9) {
+	switch r.Intn(10) {
 	case 0: // unless-like: operands must arrive unevaluated, only one branch evaluated
 		def = li(sy("fn"), li(sy("c"), sy("x")), li(sy("quasiquote"), li(sy("if"), uq("c"), canon.Ke("skipped"), uq("x"))))
 	case 1: // evaluates operand twice
@@ -751,6 +783,9 @@ func (g *PG) genMacroDef() []*canon.Node {
 		arity = -2
 	case 5: // expands to another macro (library cond) and introduces a let
 		def = li(sy("fn"), li(sy("a"), sy("b")), li(sy("quasiquote"), li(sy("let"), li(sy("tmp"), uq("a")), li(sy("cond"), li(sy("nil?"), sy("tmp")), uq("b"), canon.Ke("else"), sy("tmp")))))
+	case 8: // the expander itself has an effect: it happens once per expansion of a call
+		g.stat("macro-expander-effect")
+		def = li(sy("fn"), li(sy("x"), sy("y")), li(sy("do"), li(sy("trace!"), canon.Ke("expanding-"+name)), li(sy("quasiquote"), li(sy("list"), uq("y"), uq("x")))))
 	case 6: // expands to a vector literal form: the expansion is evaluated like any other form
 		g.stat("macro-expands-to-vector")
 		def = li(sy("fn"), li(sy("x"), sy("y")), li(sy("quasiquote"), canon.Ve(uq("x"), uq("y"), li(sy("+"), canon.In(1), canon.In(2)))))
@@ -779,6 +814,24 @@ func (g *PG) genMacroDef() []*canon.Node {
 	}
 	forms = append(forms, g.tr(g.macroCall(2)))
 	a, b := g.tr(g.Expr(TInt, 3)), g.tr(g.Expr(TInt, 3))
+	if arity == 2 && r.Intn(3) == 0 {
+		// the macro reached through another binding: a global alias, a let binding, a function parameter
+		g.stat("macro-alias")
+		al := name + "-alias"
+		switch r.Intn(3) {
+		case 0:
+			forms = append(forms, li(sy("def"), sy(al), sy(name)), g.tr(li(sy(al), a, b)))
+		case 1:
+			forms = append(forms, g.tr(li(sy("let"), li(sy(al), sy(name)), li(sy(al), a, b))))
+		default:
+			forms = append(forms, g.tr(li(li(sy("fn"), li(sy(al)), li(sy(al), a, b)), sy(name))))
+		}
+	}
+	if arity == -2 && r.Intn(4) == 0 {
+		// many consecutive expansions of a macro that expands directly to a call of itself
+		g.stat("deep-recursive-macro")
+		forms = append(forms, g.tr(li(sy("count"), li(sy(name), canon.In(140+r.Intn(120)), canon.In(1)))))
+	}
 	switch r.Intn(4) {
 	case 0, 1:
 		// a macro defined in an inner scope and called there, in tail and non-tail position: the call must be
@@ -854,6 +907,10 @@ func (g *PG) injectFault(forms []*canon.Node) []*canon.Node {
 		},
 		func() *canon.Node { g.stat("fault-builtin-type"); return call("+", g.tr(canon.In(1)), canon.St("s")) },
 		func() *canon.Node { g.stat("fault-unbound-head"); return li(sy("zz-unbound-fn"), g.mark()) },
+		func() *canon.Node {
+			g.stat("fault-in-condition-literal")
+			return li(sy("if"), canon.Ve(g.mark(), sy("zz-unbound")), canon.In(1), canon.In(2))
+		},
 		func() *canon.Node {
 			// wrong arity on a function reached through a symbol: the operands' effects still happen first
 			if fs := g.varsOfGlobals(TFn1); len(fs) > 0 {
